@@ -2,7 +2,8 @@
 constructed without arguments is applied to every node of a few small
 programs with a few option sets; whenever apply() raises, the written code
 and the symbol-table view must be identical to before the attempt.
-Bounded: 4 programs, 5 option sets, one application per (class, node)."""
+Bounded: 5 programs, 6 option sets (14 in the thorough tier), one
+application per (class, node)."""
 import importlib
 import inspect
 import pkgutil
@@ -84,7 +85,12 @@ end subroutine work
 ''',
 }
 OPTIONS = [None, {"tilesize": 4}, {"chunksize": 4}, {"force": True},
-           {"collapse": 2}]
+           {"collapse": 2}, {"reprod": True}]
+MORE_OPTIONS = [{"independent": False},
+                {"sequential": True}, {"collapse": 3}, {"tilesize": 0},
+                {"chunksize": -1}, {"region_name": ("m", "r")},
+                {"node-type-check": False}]
+THOROUGH = False
 
 
 def transformation_classes():
@@ -139,7 +145,7 @@ def attempts(only=None, programs=None):
         for cls in classes:
             if only and cls.__name__ not in only:
                 continue
-            for opts in OPTIONS:
+            for opts in OPTIONS + (MORE_OPTIONS if THOROUGH else []):
                 for k in range(n_nodes):
                     psyir = base.copy()
                     node = psyir.walk(Node)[k]
@@ -179,8 +185,10 @@ def _job(args):
     return attempts(only=[cname], programs=[pname])
 
 
-def summary_parallel(only=None):
+def summary_parallel(only=None, thorough=False):
     import multiprocessing as mp
+    global THOROUGH
+    THOROUGH = thorough
     names = [c.__name__ for c in transformation_classes()
              if not only or c.__name__ in only]
     jobs = [(c, p) for c in names for p in PROGRAMS]
